@@ -231,4 +231,22 @@ PROPS['C12'] = {
     'level_note': 'Trusted: Coq kernel, classtab extractor (validated), hand-written dispatch model.',
 }
 
+MASK_FUNCS = ['vflip', 'hflip', 'zflip', 'random_flip', 'transpose', 'rot90', '_pad', 'pad_with_params', 'cutout',
+              'random_crop', 'center_crop', 'crop', 'clamping_crop']
+PROPS['C06'] = {
+    'requires': MASK_FUNCS, 'corr': corr_multi(corr_fn('C06', MASK_FUNCS, 25, 500), corr_classtab()), 'search': 'C06',
+    'trusted_base': GEOM_TRUSTED + CLASSTAB_TRUSTED + [
+        'SciPy zoom / affine_transform with order=0 return input voxels or cval (not modelled; explored by the search '
+        'with sparse label alphabets)', 'dtype preservation is a NumPy fact outside the model (explored)'],
+    'assumptions': ['order-0 resampling inside SciPy copies voxels'],
+    'level_text': 'Theorems: (1) for every exported class the interpolation order that reaches the mask path is nearest '
+                  '(class table regenerated from the source, own mask paths resolved argument by argument); (2) for every '
+                  'class whose array code is generated over the view model (flips, transpose, quarter turns, all crops, '
+                  'PadIfNeeded in every border mode, Coarse/GridDropout) every voxel of the returned mask is an input '
+                  'voxel or the mask fill value, for every input, parameter value and shape, composable through pipelines. '
+                  'The SciPy-resampled paths (resize family, Rotate, ShiftScaleRotate, CropAndPad keep_size) and dtype '
+                  'preservation are explored: all six image orders x label dtypes x sparse alphabets x masks / additional targets.',
+    'level_note': 'Trusted: Coq kernel, translator, classtab extractor, view model of NumPy; SciPy order-0 behaviour explored only.',
+}
+
 NOT_CLAIMED = {}
